@@ -96,7 +96,7 @@ def cases(ctx):
                 for canon in (False, True):
                     yield ("sig", ci, h, enc, canon)
     for ci in range(len(STD)):
-        for cls in RS_CLASSES:
+        for cls in (RS_CLASSES[:6] if ctx.quick else RS_CLASSES):    # the 2^-16 classes need long searches: thorough tier only
             yield ("rs", ci, cls)
     # one live key pair used for a sequence of operations with different hashes / messages: no result may depend on earlier calls
     from itertools import product as _product
